@@ -1,6 +1,7 @@
 (* C09 -- Parallel consumes its input lazily, boundedly and from one thread at a time (model M1). *)
 From Coq Require Import List Arith.
-Require Import JV.Model.ParallelCore JV.Proofs.ParallelInv1 JV.Proofs.ParallelMisc.
+Require Import JV.Model.ParallelCore JV.Proofs.ParallelInv1 JV.Proofs.ParallelTrk JV.Proofs.ParallelFrame4
+               JV.Proofs.ParallelBound JV.Proofs.ParallelMisc.
 Import ListNotations.
 
 (* once the abort flag is set (task failure, input failure, timeout, generator closed) no event other
@@ -21,3 +22,22 @@ Proof. exact pre_all_takes_everything. Qed.
 Theorem C09_taken_is_a_prefix : forall s, reach s -> ifail s = None ->
   concat (submitted s) ++ concat (ready s) = seq 0 (taken s) /\ taken s <= N s.
 Proof. exact partition_invariant. Qed.
+
+(* the bound: with pre_dispatch = p items, n_jobs workers and batch sizes (the 'auto' oracle included)
+   never above B, in every state reachable by any schedule in which no completion callback ran its dispatch
+   section while the caller was still inside _start (ghost flag [noisy] = false):
+     taken - completed <= p*B + n_jobs*B  -- independent of the input length N --,
+     at most p batches are open, hence at most p batches of this call are in flight *)
+Theorem C09_bound : forall B s p, reachb (okB B) s -> noisy s = false -> ifail s = None -> pre (c s) = PreN p ->
+  phase s <> Idle ->
+  taken s - n_comp s <= p * B + n_jobs (c s) * B /\
+  length (opens s) <= p /\
+  length (filter (is_cur s) (inflight s)) <= p.
+Proof. exact laziness_bound. Qed.
+
+(* known finding F26: without that restriction the bound fails (the caller thread, still in _start, drains the
+   look-ahead queue refilled by a callback): 14 > 1*2 + 4*2 with 4 open batches for pre_dispatch = 1 *)
+Theorem C09_bound_refuted :
+  let s := fst (run_events true init f26_events) in
+  noisy s = true /\ taken s - n_comp s = 14 /\ 1 * 2 + 4 * 2 = 10 /\ length (opens s) = 4 /\ pre (c s) = PreN 1.
+Proof. exact f26_witness. Qed.
